@@ -667,10 +667,17 @@ def fetch_history_case(tag, kind, mode, storage):
     about the chain.  mode 'concurrent': two packets under the same not-yet-cached certificate are validated at the same
     time: both are owed the verdict of the chain."""
     rng = random.Random('c14-fetch-' + tag)
-    A = Pki(rng, 3, 0, tag + 'F')
+    upper = mode.endswith('-upper')
+    A = Pki(rng, 4 if upper else 3, 0, tag + 'F')
     c = A.levels['alice'][A.depth - 1]
     p1 = A.data
-    p2 = make_elem([comp('s'), comp('data'), comp('alice'), comp('second')], b'2', c.holds, list(c.name))
+    signing_cert = c
+    if upper:
+        # the certificate that cannot be fetched at first is the one directly under the anchor, two links above the packet:
+        # what fails is the validation of the LOWER certificates (round 9, C14-seed14: such a failure was remembered for good)
+        c = A.levels['alice'][1]
+        mode = mode[:-len('-upper')]
+    p2 = make_elem([comp('s'), comp('data'), comp('alice'), comp('second')], b'2', signing_cert.holds, list(signing_cert.name))
     lr = LoopRun()
     results = []
     try:
@@ -793,7 +800,7 @@ def run_independence(idx, seed):
                 if errors:
                     out.append(('C14:unhandled-error-in-loop:' + kind, '%s' % errors[:2], inp))
         # one instance: an unfetchable certificate that becomes fetchable; two validations at the same time
-        for mode in ('silent', 'nack', 'concurrent'):
+        for mode in ('silent', 'nack', 'concurrent', 'silent-upper', 'nack-upper'):
             for storage in ('default', 'fresh'):
                 tag = 'f%d-%s-%s-%s-%d' % (idx, kind, mode, storage, seed)
                 results, errors, pending, p1 = fetch_history_case(tag, kind, mode, storage)
